@@ -191,4 +191,21 @@ theorem zero_key_counterexample :
         ([(0, [1, 0]), (1, [3, 0]), (2, [1, 0]), (3, [1, 1]), (4, [3, 1]), (5, [1, 1])], 6) := by
   refine ⟨?_, ?_, ?_⟩ <;> decide +kernel
 
+/-! ## KF-C17-indexreuse (open): a nested iteration re-uses the index name of an enclosing one -/
+
+/-- what the builder produces for `for i in range(3): [hold(a = i); for i in range(2): hold(a = 10 + i/2)]`:
+the inner hold has ONE factor at depth two -/
+def indexReuseWitness : List Node :=
+  [.iter [.hold [0] [some [1]] 1, .iter [.hold [10] [some [1/2]] 1] 2] 3]
+
+theorem indexreuse_witness_in_class : inIndexReuse indexReuseWitness = true := by decide +kernel
+
+/-- the translator asserts (`len(self.iterations) == len(factors)`) instead of producing commands -/
+theorem index_reuse_counterexample : translate res9 indexReuseWitness = .error .assertion := by decide +kernel
+
+/-- the proved fragment lies outside this class as well -/
+theorem fragment_outside_indexreuse (res : Rat) (nch : Nat) (prog : List Node)
+    (h : inFragment res nch prog = true) : inIndexReuse prog = false :=
+  Judge.fragment_not_indexreuse res nch prog h
+
 end QP.Props.C17
